@@ -15,7 +15,7 @@ def handle (line : String) : String :=
     let junk : Junk Float := fun _ _ => fill
     let a := (args.map Arg.parse).toArray
     let e := entry.trimAscii.toString
-    match (if e.startsWith "Stog." || e.startsWith "Model." || e.startsWith "Wf." then Model.dispatch e a else Gen.dispatch e kw junk a) with
+    match (if e.startsWith "Stog." || e.startsWith "Model." || e.startsWith "Wf." || e.startsWith "Cfg." then Model.dispatch e a else Gen.dispatch e kw junk a) with
     | .ok vs => s!"{id} ok " ++ "|".intercalate (vs.map showVec)
     | .error e => s!"{id} err {e}"
   | _ => "? err malformed-request"
